@@ -1,6 +1,7 @@
 package checks
 
 import (
+	"bytes"
 	"errors"
 	"fmt"
 	"os"
@@ -170,6 +171,16 @@ func bombCases() [][]byte {
 			out = append(out, []byte("*1\r\n*1\r\n"+pfx+n+"\r\n"))
 		}
 	}
+	// absurd declared sizes followed by real data up to the 1 MiB input bound: what arrives must never make the
+	// parser trust the declaration (sizes around powers of two, where growing buffers change their step)
+	for _, n := range []string{"2147483647", "10000000000000", "9223372036854775804"} {
+		for _, got := range []int{1 << 10, 1<<12 + 1, 1<<16 - 1, 1 << 16, 1<<16 + 1, 1<<17 + 3, 1 << 19, 1<<20 - 32} {
+			out = append(out, append([]byte("$"+n+"\r\n"), bytes.Repeat([]byte{'a'}, got)...))
+		}
+		for _, elems := range []int{1 << 10, 1<<16 - 1, 1 << 16, 1<<16 + 1, 1 << 17, 200000} {
+			out = append(out, append([]byte("*"+n+"\r\n"), bytes.Repeat([]byte(":1\r\n"), elems)...))
+		}
+	}
 	// maximal nesting that fits into 1 MiB of input: the parser recurses once per level
 	out = append(out, []byte(strings.Repeat("*1\r\n", 262144)))
 	out = append(out, []byte(strings.Repeat("*1\r\n", 262143)+"$3\r\nabc\r\n"))
@@ -253,7 +264,7 @@ func runC06(t *testing.T, tape *sim.Tape, tier string) *Outcome {
 	var data []byte
 	var want []resp.Value
 	for i := 0; i < nvals; i++ {
-		v := genValue(tape, 0, false)
+		v := genValue(tape, 0, tape.Draw(32, "bigvalue") == 31) // 0 stays the cheap choice
 		want = append(want, v)
 		data = append(data, v.Encode()...)
 	}
@@ -306,8 +317,10 @@ func bombClass(b []byte) string {
 	switch {
 	case strings.HasPrefix(string(b), "*2"):
 		return ":as-argument"
-	case len(b) > 100000:
+	case strings.HasPrefix(string(b), "*1\r\n*1\r\n*1\r\n*1\r\n"):
 		return ":deep-nesting"
+	case len(b) > 600:
+		return ":with-data"
 	case strings.HasPrefix(string(b), "*1\r\n*1"):
 		return ":nested"
 	}
